@@ -444,7 +444,7 @@ reg(C06Check(
     lambda s: s.get("C06.mixed", 0) > 0 or s.get("C06.accepted_calls", 0) > 0,
     6000, 120000,
     floors={"C06.mixed": 300, "C06.reject.AlreadyEnded": 300, "C06.reject.AlreadyCancelled": 20, "C06.reject.InvalidTaskID": 300, "C06.delivered_exact": 1000,
-            "C06.session_cancel_commands": 100, "C17.decoy_lines": 100, "q.wait": 500, "q.got.pending": 1, "flush_inline": 100},
+            "C06.session_cancel_commands": 100, "C17.decoy_lines": 100, "q.wait": 500, "q.got.pending": 1, "flush_inline": 100, "until_closed.wait.with_others": 50},
 ))
 
 reg(PoolCheck(
